@@ -26,6 +26,7 @@ type Env struct {
 	// when defining a spec function body: memory formals
 	specSites map[string]string
 	specSelf  *SpecFunc
+	selfRec   bool
 }
 
 type specError struct{ msg string }
@@ -719,6 +720,25 @@ func (e *Env) callExpr(n *ast.CallExpr) Val {
 			return boolVal(fmt.Sprintf("(forall ((%s Int)) (=> (and (<= %s %s) (< %s %s)) %s))", bv, lo, bv, bv, hi, body))
 		}
 		return boolVal(fmt.Sprintf("(exists ((%s Int)) (and (<= %s %s) (< %s %s) %s))", bv, lo, bv, bv, hi, body))
+	case "allbytes":
+		// allbytes(b, s, P): P holds for every byte b of byte slice / string s; quantified over addresses so that
+		// any read of the underlying array triggers the instantiation
+		argc(3)
+		id, ok := n.Args[0].(*ast.Ident)
+		if !ok {
+			specErrf("allbytes: first argument must be an identifier")
+		}
+		sv := e.eval(n.Args[1])
+		site := byteSite
+		if isStringT(sv.T) {
+			site = strSite
+		}
+		arr := e.arr(site, SBV(8))
+		av := quoteSym("q!a." + id.Name)
+		ne := e.withBound(id.Name, Val{T: types.Typ[types.Uint8], S: []string{sel(arr, av)}})
+		body := ne.evalBool(n.Args[2])
+		e.quant = true
+		return boolVal(fmt.Sprintf("(forall ((%s Int)) (! (=> (and (<= %s %s) (< %s %s)) %s) :pattern (%s)))", av, sv.S[0], av, av, add(sv.S[0], sv.S[1]), body, sel(arr, av)))
 	case "forallb", "existsb":
 		// forallb(k, bits, P): quantify over a bit-vector of the given width
 		if len(n.Args) != 3 {
@@ -818,6 +838,19 @@ func (e *Env) callExpr(n *ast.CallExpr) Val {
 		e.quant = true
 		return boolVal(fmt.Sprintf("(forall ((k! Int)) (=> (and (<= 0 k!) (< k! %s)) (= (select %s (+ %s %s k!)) (select %s (+ %s %s k!)))))",
 			cnt, e.arr(sa, SBV(8)), a.S[0], alo, e.arr(sb, SBV(8)), b.S[0], blo))
+	case "buflen":
+		argc(1)
+		b := e.eval(n.Args[0])
+		return intVal(sel(e.arr(bufLenSite, SInt), b.S[0]))
+	case "bufopen":
+		argc(1)
+		b := e.eval(n.Args[0])
+		return boolVal(not(sel(e.arr(bufFrozSite, SBool), b.S[0])))
+	case "bufat":
+		argc(2)
+		b := e.eval(n.Args[0])
+		k := e.evalInt(n.Args[1])
+		return Val{T: types.Typ[types.Uint8], S: []string{sel(sel(e.arr(bufDataSite, bufDataSort), b.S[0]), k)}}
 	case "oldbytes":
 		// oldbytes(s, i): byte i of slice s in the entry heap
 		argc(2)
@@ -915,6 +948,15 @@ func (e *Env) callSpec(sf *SpecFunc, args []ast.Expr) Val {
 		actual = append(actual, e.arr(site, u.siteSort[site]))
 	}
 	rt := e.specType(sf.Pkg, sf.Ret)
+	if e.specSelf == sf {
+		// recursive occurrence inside the definition: one unit of fuel less
+		e.selfRec = true
+		actual = append([]string{"f!"}, actual...)
+		return Val{T: rt, S: []string{app(def.sym, actual...)}}
+	}
+	if def.rec {
+		actual = append([]string{"(SF (SF ZF))"}, actual...)
+	}
 	if len(actual) == 0 {
 		return Val{T: rt, S: []string{def.sym}}
 	}
@@ -924,6 +966,7 @@ func (e *Env) callSpec(sf *SpecFunc, args []ast.Expr) Val {
 type specDef struct {
 	sym   string
 	sites []string
+	rec   bool
 }
 
 func (u *Unit) defineSpec(sf *SpecFunc) *specDef {
@@ -970,7 +1013,36 @@ func (u *Unit) defineSpec(sf *SpecFunc) *specDef {
 				formals = append(formals, fmt.Sprintf("(%s %s)", quoteSym("H:"+s), SArr(SInt, u.siteSort[s])))
 			}
 			rs := leavesOf(rt, "elem")[0].Sort
-			u.ctx.raw(sym, fmt.Sprintf("(define-fun-rec %s (%s) %s %s)", sym, strings.Join(formals, " "), rs, body.S[0]))
+			if !env.selfRec {
+				u.ctx.raw(sym, fmt.Sprintf("(define-fun %s (%s) %s %s)", sym, strings.Join(formals, " "), rs, body.S[0]))
+				return d
+			}
+			// recursive spec function: fuel encoding (bounded unfolding, no matching loops)
+			d.rec = true
+			if _, ok := u.ctx.names["Fuel"]; !ok {
+				u.ctx.raw("Fuel", "(declare-datatypes ((Fuel 0)) (((ZF) (SF (pf Fuel)))))")
+			}
+			var sorts, names []string
+			for _, fm := range formals {
+				// "(name sort)"
+				inner := fm[1 : len(fm)-1]
+				var nm, st string
+				if strings.HasPrefix(inner, "|") {
+					j := strings.Index(inner[1:], "|")
+					nm, st = inner[:j+2], strings.TrimSpace(inner[j+2:])
+				} else {
+					j := strings.Index(inner, " ")
+					nm, st = inner[:j], strings.TrimSpace(inner[j:])
+				}
+				names = append(names, nm)
+				sorts = append(sorts, st)
+			}
+			lhsS := app(sym, append([]string{"(SF f!)"}, names...)...)
+			lhs0 := app(sym, append([]string{"f!"}, names...)...)
+			u.ctx.raw(sym, fmt.Sprintf("(declare-fun %s (Fuel %s) %s)\n(assert (forall ((f! Fuel) %s) (! (= %s %s) :pattern (%s))))\n(assert (forall ((f! Fuel) %s) (! (= %s %s) :pattern (%s))))",
+				sym, strings.Join(sorts, " "), rs,
+				strings.Join(formals, " "), lhsS, body.S[0], lhsS,
+				strings.Join(formals, " "), lhsS, lhs0, lhsS))
 			return d
 		}
 		d.sites = sites
